@@ -306,19 +306,23 @@ impl<'tcx> Cx<'tcx> {
                 }
                 TerminatorKind::Call { func, args, destination, target, unwind, .. } => {
                     let fty = func.ty(body, tcx);
+                    let mut callee_crate = "null".to_string();
                     let (callee, resolved, gargs, selfty) = match fty.kind() {
                         ty::FnDef(cdid, gargs) => {
                             let env = TypingEnv::post_analysis(tcx, did);
                             let res = Instance::try_resolve(tcx, env, *cdid, gargs).ok().flatten();
                             let rs = res.map(|i| tcx.def_path_str(i.def_id()));
                             let ga: Vec<String> = gargs.iter().map(|a| js(&format!("{}", a))).collect();
+                            // defining crate of the callee (resolved instance if known): core / alloc / std / <local>
+                            let ck = tcx.crate_name(res.map(|i| i.def_id()).unwrap_or(*cdid).krate).to_string();
+                            callee_crate = js(&ck);
                             (js(&tcx.def_path_str(*cdid)), rs.map(|r| js(&r)).unwrap_or("null".into()), format!("[{}]", ga.join(",")), "null".to_string())
                         }
                         _ => ("null".to_string(), "null".to_string(), "[]".to_string(), js(&format!("{}", fty))),
                     };
                     let a: Vec<String> = args.iter().map(|a| self.operand(body, &a.node)).collect();
-                    format!("{{\"k\":\"call\",\"callee\":{},\"resolved\":{},\"gargs\":{},\"fnptr_ty\":{},\"func\":{},\"args\":[{}],\"dest\":{},\"t\":{},\"unwind\":{},\"uk\":{},\"span\":{}}}",
-                        callee, resolved, gargs, selfty, self.operand(body, func), a.join(","), self.place(body, destination), self.bbopt(target), self.unwind(unwind), self.unwind_kind(unwind), self.span(term.source_info.span))
+                    format!("{{\"k\":\"call\",\"callee\":{},\"resolved\":{},\"ck\":{},\"gargs\":{},\"fnptr_ty\":{},\"func\":{},\"args\":[{}],\"dest\":{},\"t\":{},\"unwind\":{},\"uk\":{},\"span\":{}}}",
+                        callee, resolved, callee_crate, gargs, selfty, self.operand(body, func), a.join(","), self.place(body, destination), self.bbopt(target), self.unwind(unwind), self.unwind_kind(unwind), self.span(term.source_info.span))
                 }
                 TerminatorKind::InlineAsm { targets, unwind, .. } => {
                     let ts: Vec<String> = targets.iter().map(|t| t.as_usize().to_string()).collect();
